@@ -363,6 +363,14 @@ class EditableModule(object):
         return names, params
 
 ############################ traversing functions ############################
+class _ModuleParamSetter(object):
+    # dict-like writer for the parameters of a torch.nn.Module
+    def __init__(self, module):
+        self.module = module
+
+    def __setitem__(self, key, val):
+        set_attr(self.module, key, val)
+
 def _traverse_obj(obj, prefix, action, crit, max_depth=20, exception_ids=None):
     """
     Traverse an object to get/set variables that are accessible through the object.
@@ -373,9 +381,14 @@ def _traverse_obj(obj, prefix, action, crit, max_depth=20, exception_ids=None):
         exception_ids = set()
 
     if isinstance(obj, torch.nn.Module):
-        generators = [obj._parameters.items(), obj._modules.items()]
+        # a parameter that is temporarily replaced by a plain tensor lives in the
+        # module's __dict__ with its slot kept in _parameters (see set_attr):
+        # look at what is installed now, and write through the same mechanism
+        # instead of putting plain tensors into _parameters
+        params_now = {key: obj.__dict__.get(key, p) for (key, p) in obj._parameters.items()}
+        generators = [params_now.items(), obj._modules.items()]
         name_format = "{prefix}{key}"
-        objdicts = [obj._parameters, obj._modules]
+        objdicts = [_ModuleParamSetter(obj), obj._modules]
     elif hasattr(obj, "__dict__"):
         generators = [obj.__dict__.items()]
         name_format = "{prefix}{key}"
